@@ -20,7 +20,7 @@ type fieldWrite struct {
 	Pos   token.Pos
 }
 
-var readOnlyMethodPrefixes = []string{"Write", "IsSet", "Get", "String", "TLName", "TLTag", "Calculate", "Internal" + "WriteTL2", "Len", "Load"}
+var readOnlyMethodPrefixes = []string{"Write", "IsSet", "Get", "String", "TLName", "TLTag", "Calculate", "Internal" + "WriteTL2", "Len", "Load", "Front", "Back", "Index", "Empty"}
 
 func isReadOnlyMethod(name string) bool {
 	for _, p := range readOnlyMethodPrefixes {
